@@ -2,7 +2,7 @@
    separately.  Statements only; proofs in Proofs/CoringFacts.v, CoringWrap.v *)
 From Coq Require Import List ZArith Arith Bool.
 From MsmV Require Import Lib.Result Lib.PyList Lib.Sorting Model.Labels Model.StateTraj Model.Coring.
-From MsmV Require Import Proofs.LabelsFacts Proofs.CoringFacts Proofs.CoringWrap Proofs.RunsFacts.
+From MsmV Require Import Proofs.LabelsFacts Proofs.CoringFacts Proofs.CoringWrap Proofs.RunsFacts Proofs.FastEntries.
 Import ListNotations.
 Local Open Scope nat_scope.
 
@@ -91,6 +91,17 @@ Proof. exact runs_geb_iff. Qed.
 Print Assumptions runs_geb_decides.
 
 (* non-vacuity *)
+(* the runner's fast entry (503) answers with the reference schedule: on well-formed input that is the
+   public wrapper itself *)
+Theorem fast_coring_is_wrapper_thm : forall ts lag iter,
+  concat ts <> [] -> (forall v, In v (concat ts) -> small29 v) ->
+  dynamical_coring ts lag iter =
+    if (lag <=? 0)%Z then Err ValueError
+    else if (lag =? 1)%Z then Ok ts
+    else coring_ref ts (Z.to_nat lag) iter.
+Proof. exact fast_coring_is_wrapper. Qed.
+Print Assumptions fast_coring_is_wrapper_thm.
+
 Example coring_example :
   dynamical_coring [[1; 1; 1; 2; 1; 2; 2; 2; 1; 1]; [5; 5; 5; 7]]%Z 3 true
     = Ok [[1; 1; 1; 1; 1; 2; 2; 2; 2; 2]; [5; 5; 5; 5]]%Z
